@@ -35,7 +35,11 @@ OPS_W = [("drop_buses", 3), ("drop_lines", 3), ("drop_trafos", 3), ("drop_elemen
          ("drop_inactive_elements", 2), ("drop_out_of_service_elements", 1), ("fuse_buses", 3), ("select_subnet", 1),
          ("merge_nets", 1), ("reindex_buses", 2), ("reindex_elements", 6), ("create_continuous_bus_index", 1),
          ("create_continuous_elements_index", 2), ("replace", 4), ("create", 4), ("toggle", 3), ("runpp", 2),
-         ("decorate", 3)]
+         ("decorate", 3), ("drop_elements_simple", 2), ("drop_switches_at_buses", 1),
+         ("drop_measurements_at_elements", 1), ("drop_controllers", 1), ("drop_duplicated_measurements", 1),
+         ("drop_inner_branches", 2), ("merge_parallel_line", 1), ("merge_same_bus_generation_plants", 1),
+         ("repl_to_line", 1)]
+SIMPLE_DROP_ET = ["load", "sgen", "gen", "shunt", "impedance", "storage", "ward", "xward", "measurement", "poly_cost"]
 REINDEX_ET = ["line", "trafo", "trafo3w", "load", "sgen", "gen", "ext_grid", "switch", "shunt", "impedance",
               "measurement", "poly_cost", "storage", "xward", "ward", "group"]
 DROP_ET = ["load", "sgen", "gen", "shunt", "impedance", "switch", "measurement", "storage", "xward", "ward",
@@ -65,6 +69,11 @@ def generate(rng, idx, tier):
             op.update(et=rng.choice(REINDEX_ET), shift=rng.choice([1, 7, 100]), partial=rng.random() < 0.4)
         elif f == "drop_elements":
             op.update(et=rng.choice(DROP_ET))
+        elif f == "drop_elements_simple":
+            op.update(et=rng.choice(SIMPLE_DROP_ET))
+        elif f in ("drop_measurements_at_elements", "drop_controllers"):
+            op.update(et=rng.choice(["line", "trafo", "trafo3w", "bus", "load", "sgen", "gen"]), all=rng.random() < 0.3,
+                      at_buses=rng.random() < 0.4)
         elif f == "drop_trafos":
             op.update(table=rng.choice(["trafo", "trafo", "trafo3w"]))
         elif f == "replace":
@@ -374,6 +383,74 @@ def apply_op(net, op):
             return None, k, ""
         tb.drop_elements(net, et, es)
         return net, f"drop_elements:{et}", str(es)
+    if k == "drop_elements_simple":
+        et = op["et"]
+        es = _pick_many(net, et, a, 1 + b % 2)
+        if not es:
+            return None, k, ""
+        tb.drop_elements_simple(net, et, es)
+        return net, f"drop_elements_simple:{et}", str(es)
+    if k == "drop_switches_at_buses":
+        buses = _pick_many(net, "bus", a, 1 + b % 2)
+        if not buses:
+            return None, k, ""
+        tb.drop_switches_at_buses(net, buses)
+        return net, k, str(buses)
+    if k == "drop_measurements_at_elements":
+        et = op["et"]
+        if et not in net or not len(net[et]):
+            return None, k, ""
+        tb.drop_measurements_at_elements(net, et, idx=None if op["all"] else _pick_many(net, et, a, 2))
+        return net, f"{k}:{et}", ""
+    if k == "drop_controllers":
+        if op["at_buses"]:
+            buses = _pick_many(net, "bus", a, 2)
+            if not buses:
+                return None, k, ""
+            tb.drop_controllers_at_buses(net, buses)
+            return net, "drop_controllers_at_buses", str(buses)
+        et = op["et"]
+        if et not in net or not len(net[et]) or et == "bus":
+            return None, k, ""
+        tb.drop_controllers_at_elements(net, et, idx=None if op["all"] else _pick_many(net, et, a, 2))
+        return net, f"drop_controllers_at_elements:{et}", ""
+    if k == "drop_duplicated_measurements":
+        tb.drop_duplicated_measurements(net, buses=None if b % 2 else _pick_many(net, "bus", a, 3))
+        return net, k, ""
+    if k == "drop_inner_branches":
+        b1 = ops.pick(net.bus.index.tolist(), a)
+        if b1 is None:
+            return None, k, ""
+        # buses around b1: both ends of the branches at b1
+        buses = {int(b1)}
+        for tab, c1, c2 in (("line", "from_bus", "to_bus"), ("trafo", "hv_bus", "lv_bus"), ("impedance", "from_bus", "to_bus")):
+            if tab in net and len(net[tab]):
+                t = net[tab]
+                buses |= set(t[c2][t[c1] == b1].astype(int)) | set(t[c1][t[c2] == b1].astype(int))
+        if "trafo3w" in net and len(net.trafo3w) and b % 2:
+            t = net.trafo3w
+            for c in ("hv_bus", "mv_bus", "lv_bus"):
+                hit = t[t[c] == b1]
+                for c_ in ("hv_bus", "mv_bus", "lv_bus"):
+                    buses |= set(hit[c_].astype(int))
+        tb.drop_inner_branches(net, sorted(buses))
+        return net, k, str(sorted(buses))
+    if k == "merge_parallel_line":
+        ls = [l for l in net.line.index if net.line.at[l, "parallel"] > 1]
+        l = ops.pick(ls, a)
+        if l is None:
+            return None, k, ""
+        net = tb.merge_parallel_line(net, l) or net
+        return net, k, str(l)
+    if k == "merge_same_bus_generation_plants":
+        tb.merge_same_bus_generation_plants(net, error=False)
+        return net, k, ""
+    if k == "repl_to_line":
+        l = ops.pick(net.line.index.tolist(), a)
+        if l is None:
+            return None, k, ""
+        tb.repl_to_line(net, l, ops.LINE_STD[b % len(ops.LINE_STD)], in_service=bool(c % 2))
+        return net, k, str(l)
     if k == "drop_elements_at_buses":
         buses = [x for x in _pick_many(net, "bus", a, 1) if x not in set(net.ext_grid.bus)]
         if not buses:
